@@ -17,6 +17,8 @@ symbols c (amplitude: rho 1, sigma 2, tau 1, grad 1), N (nspin), e (energy densi
  spin-mirror  get_sigma / get_dsigma (GGA correlation baseline): values stored into spin slot b are the a<->b
            mirror of those stored into slot a (sign flip for odd functions of zeta), the ab slot is invariant
  c-spin-mirror  model_utils.c kernels with paired spin pointers: stores (helpers inlined) invariant under a<->b
+ spin-layout  baselines.py: per-spin arrays handed to one libxc call all pass through the same layout normalisation
+ reg-twin  absolute additive regularisers reached by get_s2/get_alpha are reached by ds2/dalpha too
  cutoff    every comparison of a density with the user's low-density cutoff, on the NLDF exponent chain and in the
            kernel evaluators, is equivalent to `total density < cutoff` (nspin-degree bookkeeping along the chain)
  sites     every arithmetic use of nspin in the anchored files is enumerated; each must lie in a function
@@ -73,6 +75,20 @@ STUBS = {
 
 
 class PlanHooks(deg.ProgramHooks):
+    def branch(self, eng, test, env):
+        """tests on the (symbolic) number of spin channels are decided for the polarised case nspin = 2"""
+        if isinstance(test, ast.Compare) and len(test.ops) == 1:
+            a, b = eng.eval_expr(test.left, env), eng.eval_expr(test.comparators[0], env)
+            for x, y, flip in ((a, b, False), (b, a, True)):
+                if isinstance(x, Q) and not x.is_rows and x.deg is not ANY and x.num is None \
+                        and x.deg == Deg.of(N=1) and eng.num_of(y) is not None:
+                    l, r = (2, eng.num_of(y)) if not flip else (eng.num_of(y), 2)
+                    op = test.ops[0]
+                    table = {ast.Eq: l == r, ast.NotEq: l != r, ast.Lt: l < r, ast.LtE: l <= r, ast.Gt: l > r,
+                             ast.GtE: l >= r}
+                    return table.get(type(op))
+        return None
+
     def resolve_call(self, eng, node, env):
         if deg._dotted(node.func) in STUBS:
             return None
@@ -327,6 +343,64 @@ def rule_nldf(chk, cx):
             chk.note("pair", where, "eval_occd_full not comparable: %s" % fmt(ov))
 
 
+def rule_fraclapl(chk, cx):
+    """FracLaplPlan: like every other plan, channel s must hold the unpolarised feature of nspin * n_s: rows
+    linear in the density (matrix) carry nspin, the l=1 dot products nspin**2 (amp), and get_vxc multiplies vfeat
+    by the same powers (pair).  The plan's own get_feat / get_vxc are interpreted (polarised case)."""
+    s = cx.s
+    pair = lambda a, b: Tup([num(a), num(b)])  # noqa: E731
+    ns, nk0, nk1, nd1, ndd = 5, 3, 2, 4, 1
+    l1_dots = lst(pair(-1, -1), pair(-1, 0), pair(0, 1), pair(1, 1), pair(0, 0), pair(1, 0))
+    ld_dots = lst(pair(-1, 0), pair(1, 1), pair(2, 3), pair(0, 3), pair(3, 3), pair(-1, 2), pair(2, 1))
+    st = s.new(ST, "FracLaplSettings", lst(*[sym("s%d" % i) for i in range(ns)]), num(nk0), num(nk1), l1_dots,
+               num(nd1), ld_dots, num(ndd))
+    plan = s.new(PL, "FracLaplPlan", st, NSPIN)
+    if not isinstance(st, deg.Obj) or not isinstance(plan, deg.Obj):
+        raise core.AnalysisError("FracLaplSettings / FracLaplPlan: constructor could not be interpreted")
+    nrho = 5 + nk0 + 3 * nk1 + 3 * nd1 + ndd
+    rho_data = rows(1, {i: q(c=1) for i in range(nrho)})
+    rho_data.shape = Tup([NSPIN, num(nrho), sym("ngrid")])
+    fw = s.call(plan, "get_feat", [rho_data])
+    where = "FracLaplPlan.get_feat"
+    cx.flush(fw, where, "amp")
+    feat = fw.value
+    gf = s.hooks.method_of(plan, "get_feat").fdef
+    nfeat = nk0 + 6 + 7 + ndd
+    if not (isinstance(feat, Q) and feat.is_rows):
+        if not fw.mismatches:
+            raise core.AnalysisError("%s: result is not row-typed (%s)" % (where, fmt(feat)))
+        return
+    got = {(k if k >= 0 else nfeat + k): v for k, v in feat.rows.items()}
+    if len(got) < nfeat:
+        raise core.AnalysisError("%s wrote rows %s, expected %d" % (where, sorted(got), nfeat))
+    for k in sorted(got):
+        r = got[k]
+        if comp(r, "c") is None:
+            cx.nc += 1
+            continue
+        kind = "linear" if k < nk0 or k >= nfeat - ndd else "l=1 dot"
+        if comp(r, "N") == comp(r, "c"):
+            chk.ok("amp", "%s: feat[:, %d] (%s) carries nspin^%s" % (where, k, kind, comp(r, "N")))
+        elif ("fl", kind) in cx.reported:
+            chk.ok("amp", "%s: feat[:, %d] (%s) (same finding as reported for this kind)" % (where, k, kind), nontrivial=False)
+        else:
+            cx.reported.add(("fl", kind))
+            cx.want("amp", fw, where, r, "N", comp(r, "c"), "%s rows" % kind, PL, "FracLaplPlan.get_feat",
+                    gf.lineno, "channel s holds the feature of nspin*n_s: nspin**degree (first such row: %d)" % k)
+    vfeat = rows(1, {k: Q(E1 - v.deg) for k, v in got.items() if comp(v, "c") is not None})
+    vfeat.shape = Tup([NSPIN, num(nfeat), sym("ngrid")])
+    vxc = q(e=1, c=-1)
+    vxc.homog = True
+    vxc.shape = Tup([NSPIN, num(nrho), sym("ngrid")])
+    bw = s.call(plan, "get_vxc", [vfeat], {"vxc": vxc})
+    cx.flush(bw, "FracLaplPlan.get_vxc", "pair")
+    gv = s.hooks.method_of(plan, "get_vxc").fdef
+    if not bw.mismatches:
+        chk.ok("pair", "FracLaplPlan.get_vxc: every term added to vxc has nspin-degree 0 with vfeat typed from get_feat")
+    cx.want("pair", bw, "FracLaplPlan.get_vxc", bw.value, "N", 0, "vxc", PL, "FracLaplPlan.get_vxc", gv.lineno,
+            "the spin factors of get_feat must be mirrored on vfeat")
+
+
 def rule_sdmx(chk, cx):
     s = cx.s
     prog = s.prog
@@ -427,6 +501,32 @@ def rule_baselines(chk, cx):
         d0 = d.rows.get(0) if isinstance(d, Q) and d.is_rows else d
         cx.want("pair", res, where, d0 if d0 is not None else Q(ANY), "N", comp(e, "N") if comp(e, "N") is not None else -1,
                 "dedx[0]", BL, fn.fdef.name, ln, "derivative carries the same 1/nspin as the value")
+    # the density baseline ("RHO"): the value reads feature 0 of every spin channel, so the derivative must be
+    # stored along the feature axis (row 0 of every spin), with the 1/nspin of the spin average
+    fn = reg.d.get("RHO")
+    if isinstance(fn, deg.Fn):
+        Xr = rows(1, {0: q(c=1, N=1), 1: q(), 2: q()}, default=q())
+        Xr.shape = Tup([NSPIN, num(3), sym("ngrid")])
+        res = s.eng.run_function(fn.fdef, [Xr], mod=fn.mod)
+        where = "baseline RHO (%s)" % fn.fdef.name
+        cx.flush(res, where, "pair")
+        vals = deg.items_of(res.value)
+        if vals is None or len(vals) != 2:
+            chk.violation("pair", BL, fn.fdef.name, "return value of the RHO baseline", fn.fdef.lineno,
+                          "the registered baseline does not return (e, dedx) (got %s)" % fmt(res.value))
+        else:
+            e, d = vals
+            if not (isinstance(d, Q) and d.is_rows):
+                cx.nc += 1
+                chk.note("pair", where, "dedx not comparable: %s" % fmt(d))
+            elif d.axis != 1 or set(d.rows) != {0}:
+                chk.violation("pair", BL, fn.fdef.name, "slots of dedx written by the RHO baseline", fn.fdef.lineno,
+                              "the value reads X0T[:, 0] (feature 0 of every spin channel) but the derivative is stored "
+                              "in %s of dedx: it must address the same (spin, feature) slots, dedx[:, 0]" % (
+                                  "rows %s along axis %d" % (sorted(d.rows), d.axis)))
+            else:
+                cx.want("pair", res, where, d.rows[0], "N", -1, "dedx[:, 0]", BL, fn.fdef.name, fn.fdef.lineno,
+                        "derivative of the spin average of feature 0")
     # SEP multiplicative baseline of a mapped kernel, reached through the public path
     # MappedDFTKernel(fevals, feature_list, mode, multiplicative_baseline).multiplicative_baseline(X0T);
     # whatever private method evaluates the registered base function is followed by the interpreter
@@ -960,6 +1060,146 @@ def rule_c_spin_mirror(chk, cx):
     chk.floor("c-spin-mirror", 3, "stores of the bound spin kernel(s)")
 
 
+LAYOUT_F = ("asfortranarray",)
+LAYOUT_C = ("ascontiguousarray",)
+
+
+def rule_spin_layout(chk, cx):
+    """baselines.py: the multi-dimensional (spin, grid) arrays whose buffers are handed to ONE foreign call must
+    all have gone through the same layout normalisation: an input normalised with np.asfortranarray next to a
+    sibling input passed as received lets libxc read the sibling's spin channels interleaved.  For every call on a
+    ctypes library object the last binding of each `X.ctypes.data_as(...)` argument is classified:
+    F (asfortranarray / order='F' allocation or copy), C (ascontiguousarray), 1-D scratch (np.zeros(n) / zeros
+    of a scalar size: layout-free), or `as received` (parameter never re-bound)."""
+    mod = cx.s.prog.module(BL)
+    n_calls = 0
+    for fname, fdef in mod.functions.items():
+        params = {a.arg for a in fdef.args.args}
+        body = [st for st in ast.walk(fdef) if isinstance(st, ast.stmt)]
+        for call in [n for n in ast.walk(fdef) if isinstance(n, ast.Call)]:
+            ptrs = []
+            for a_ in call.args:
+                if isinstance(a_, ast.Call) and isinstance(a_.func, ast.Attribute) and a_.func.attr == "data_as" \
+                        and isinstance(a_.func.value, ast.Attribute) and a_.func.value.attr == "ctypes" \
+                        and isinstance(a_.func.value.value, ast.Name):
+                    ptrs.append(a_.func.value.value.id)
+            if len(ptrs) < 2:
+                continue
+            n_calls += 1
+            tags = {}
+            for name in ptrs:
+                last = None
+                for st in body:
+                    if st.lineno < call.lineno and isinstance(st, ast.Assign) and any(
+                            isinstance(t, ast.Name) and t.id == name for t in st.targets):
+                        if last is None or st.lineno > last.lineno:
+                            last = st
+                if last is None:
+                    tags[name] = "as received" if name in params else "?"
+                    continue
+                v = last.value
+                cn = (pf.call_name(v) or "").split(".")[-1] if isinstance(v, ast.Call) else ""
+                order = None
+                if isinstance(v, ast.Call):
+                    for kw in v.keywords:
+                        if kw.arg == "order" and isinstance(kw.value, ast.Constant):
+                            order = kw.value.value
+                if cn in LAYOUT_F or order == "F":
+                    tags[name] = "F"
+                elif cn in LAYOUT_C or order == "C":
+                    tags[name] = "C"
+                elif cn in ("zeros", "empty", "ones") and v.args and not isinstance(v.args[0], (ast.Tuple, ast.List)):
+                    tags[name] = "1-D"
+                else:
+                    tags[name] = "?"
+            norm = {t for t in tags.values() if t in ("F", "C")}
+            inst = "%s: foreign call `%s`, buffer layouts %s" % (fname, pf.src(call.func), tags)
+            raw = sorted(n_ for n_, t in tags.items() if t == "as received")
+            if len(norm) > 1:
+                chk.violation("spin-layout", BL, fname, pf.src(call.func) + " buffer layouts", call.lineno,
+                              "the arrays handed to one foreign call are normalised to different memory layouts: %s" % tags,
+                              instance=inst)
+            elif norm and raw:
+                chk.violation("spin-layout", BL, fname, pf.src(call.func) + " buffer layouts", call.lineno,
+                              "%s is handed to the foreign call as received while its sibling arrays are normalised to "
+                              "%s-order (%s): a caller-supplied (nspin, n) array in the other layout is read with its "
+                              "spin channels interleaved" % (", ".join(raw), norm.copy().pop(),
+                                                             {k: v for k, v in tags.items() if v in ("F", "C")}),
+                              instance=inst)
+            else:
+                chk.ok("spin-layout", inst)
+    if n_calls < 2:
+        raise core.AnalysisError("fewer than two foreign calls with array buffers found in %s" % BL)
+    chk.floor("spin-layout", 2, "libxc baseline wrappers (lda / gga / mgga)")
+
+
+def rule_reg_twin(chk, cx):
+    """Regularisers of the semilocal feature functions and of their derivative twins.  In the plan method that
+    fills a feature row from `f(args)` and its occupation/chain-rule derivative from `df(args)` (same argument
+    list, value stored into the feature array, derivative unpacked), every tiny additive constant that the value
+    function adds to a density-like term (reached by interpreting it, helpers included) must also be reached,
+    on a term of the same amplitude degree and with the same constant, by the derivative function: otherwise the
+    derivative is not the derivative of the value and, because an absolute constant next to rho_s = n/nspin is
+    not homogeneous under the spin scaling, the polarised and unpolarised paths regularise differently."""
+    s = cx.s
+    eng = s.eng
+    plmod = s.prog.module(PL)
+    stmod = s.prog.module(ST)
+    pairs = {}
+    for cname, cls in plmod.classes.items():
+        for m in pf.methods(cls).values():
+            groups = {}
+            for n in pf.walk_no_nested(m):
+                if isinstance(n, ast.Assign) and isinstance(n.value, ast.Call) and isinstance(n.value.func, ast.Name) \
+                        and n.value.func.id in stmod.functions:
+                    key = tuple(pf.src(a) for a in n.value.args)
+                    kind = "deriv" if isinstance(n.targets[0], (ast.Tuple, ast.List)) else (
+                        "value" if isinstance(n.targets[0], ast.Subscript) else None)
+                    if kind:
+                        groups.setdefault(key, {}).setdefault(kind, set()).add(n.value.func.id)
+            for key, g in groups.items():
+                if len(g.get("value", ())) == 1 and len(g.get("deriv", ())) == 1:
+                    pairs[(list(g["value"])[0], list(g["deriv"])[0])] = len(key)
+    if not pairs:
+        raise core.AnalysisError("no value/derivative call pair with identical arguments found in the semilocal plans")
+
+    def regs(fname, nargs):
+        got = []
+
+        def ob(node, a, b, kind):
+            for x, y in ((a, b), (b, a)):
+                if isinstance(x, Q) and x.deg is ANY and x.num is not None and x.num.is_const and x.num.value != 0 \
+                        and isinstance(y, Q) and not y.is_rows and y.deg is not ANY and y.deg.get("c").t:
+                    got.append((str(y.deg.get("c")), str(x.num.value), pf.src(node)[:60]))
+        eng.observers.append(ob)
+        try:
+            args = [q(c=1), q(c=2), q(c=1)][:nargs]
+            s.call(ST, fname, args)
+        finally:
+            eng.observers.remove(ob)
+        return got
+    for (fv, fd), nargs in sorted(pairs.items()):
+        rv, rd = regs(fv, nargs), regs(fd, nargs)
+        have = [(a, b) for a, b, _ in rd]
+        inst = "%s / %s" % (fv, fd)
+        missing = []
+        for a, b, txt in rv:
+            if (a, b) in have:
+                have.remove((a, b))
+            else:
+                missing.append((a, b, txt))
+        if missing:
+            a, b, txt = missing[0]
+            chk.violation("reg-twin", ST, fv, "regulariser of %s not shared by %s" % (fv, fd),
+                          stmod.func(fv).lineno,
+                          "%s adds the absolute constant %s to a term of amplitude degree %s (`%s`) that its derivative "
+                          "twin %s does not regularise: the derivative is taken of a different function, and the "
+                          "constant is not homogeneous under rho_s = n/nspin" % (fv, b, a, txt, fd), instance=inst)
+        else:
+            chk.ok("reg-twin", inst + ": %d regulariser(s) of the value are mirrored in the derivative" % len(rv))
+    chk.floor("reg-twin", 1, "(get_s2, ds2), (get_alpha, dalpha)")
+
+
 SPIN_RESOLVED = {
     # function -> kinds of its positional parameters ("spin": leading axis = 2 channels; "sig3": aa, ab, bb)
     "get_sigma": {0: "spin"},
@@ -1009,6 +1249,8 @@ def _analyse_own(chk):
     chk.rule("sep2", "SEP libxc baseline: ingredients doubled as 2**deg, outputs rescaled by 2**(deg-1)")
     chk.rule("spin-mirror", "baseline helpers: the slot-b statements are the a<->b mirror of the slot-a statements")
     chk.rule("c-spin-mirror", "C spin kernels: the set of stores is invariant under the a<->b exchange of the paired pointers")
+    chk.rule("spin-layout", "arrays handed to one foreign baseline call share one layout normalisation")
+    chk.rule("reg-twin", "absolute regularisers of a semilocal feature function are mirrored in its derivative twin")
     chk.rule("cutoff", "a density compared with the user's total-density cutoff is nspin-equivalent to the total density")
     chk.rule("sites", "every arithmetic use of nspin is enumerated and lies in a typed analysis")
     chk.rule("ab-sym", "nr_uks*: statements on one spin channel have an a<->b sibling")
@@ -1016,6 +1258,7 @@ def _analyse_own(chk):
     chk.guard(rule_semilocal, cx)
     chk.guard(rule_nldf, cx)
     chk.guard(rule_sdmx, cx)
+    chk.guard(rule_fraclapl, cx)
     chk.guard(rule_baselines, cx)
     chk.guard(rule_normalizer_inputs, cx)
     chk.guard(rule_rhocut, cx)
@@ -1023,6 +1266,8 @@ def _analyse_own(chk):
     chk.guard(rule_sep2, cx)
     chk.guard(rule_spin_mirror, cx)
     chk.guard(rule_c_spin_mirror, cx)
+    chk.guard(rule_spin_layout, cx)
+    chk.guard(rule_reg_twin, cx)
     chk.guard(rule_sites, cx)
     chk.guard(rule_ab, cx)
     chk.count("equal-degree obligations decided inside formulas", cx.s.eng.checks)
@@ -1121,6 +1366,16 @@ def mutants(tree):
         Mutant("C spin kernel: cross term of channel a weighted by aabb", MU_C_REL,
                "_add_deriv(outd_a + iloc, xin_a + iloc, xctrl_b + cloc, exps, abba,", "_add_deriv(outd_a + iloc, xin_a + iloc, xctrl_b + cloc, exps, aabb,",
                expect="c-spin-mirror"),
+        Mutant("revert a1025cb: RHO baseline derivative stored along the spin axis", BL, "dedx[:, 0] += 1.0 / nspin",
+               "dedx[0, :] += 1.0 / nspin", expect="pair"),
+        Mutant("revert f11be14: tau handed to libxc as received", BL, "    tau = np.asfortranarray(tau)\n", "", expect="spin-layout"),
+        Mutant("revert e2f0ec8: get_alpha regularises tauw, dalpha does not", ST, "    tauw = sigma / (8 * rho)\n    # TODO this numerical",
+               "    tauw = get_single_orbital_tau(rho, np.sqrt(sigma))\n    # TODO this numerical", expect="reg-twin"),
+        Mutant("revert 787ace0 (forward): FracLapl dot rows not scaled by nspin^2", PL,
+               "            feat[:, nk0 : nfeat - ndd] *= nspin * nspin\n", "", expect="amp"),
+        Mutant("revert 787ace0 (backward): FracLapl vfeat dot rows scaled by nspin", PL,
+               "            vfeat[:, nk0 : nfeat - ndd] *= nspin * nspin\n", "            vfeat[:, nk0 : nfeat - ndd] *= nspin\n",
+               expect="pair"),
         Mutant("nelec of channel b accumulates den_a", NI, "nelec[1, i] += den_b.sum()", "nelec[1, i] += den_a.sum()",
                expect="ab-sym"),
         Mutant("NLDF eval_rho_full nspin factor removed (forward only)", PL, "        feat[:] *= self.nspin\n        # dfeat",
